@@ -112,6 +112,11 @@ def gen_session(rng, focus: str, tier: str = "quick"):
                 cmd = rng.choice(sorted(COMMANDS))
             at = c["start_at_us"] + rng.randint(0, max(1, (ncheck - 2) * st * 1000 // 2))
             operator.append({"at_us": at, "client": c["k"], "task": [cmd, hx(_data(rng))]})
+        if rng.random() < 0.35:
+            for _ in range(rng.randint(1, 3)):
+                operator.append({"at_us": c["start_at_us"] + rng.randint(st * 1000, max(st * 1000 + 1, (ncheck - 1) * st * 1000 // 2)),
+                                 "client": c["k"],
+                                 "callbacks": [[rng.choice(CALLBACKS), hx(_data(rng, 200))] for _ in range(rng.randint(2, 5))]})
         if faulty:
             kinds = rng.sample(["drop_request", "drop_response", "dup_request", "http_error", "corrupt_request",
                                 "corrupt_response", "delay"], rng.randint(1, 4))
